@@ -3,6 +3,7 @@ from functools import partial
 import numpy.linalg as npla
 
 from autograd.extend import defjvp, defvjp
+from autograd.tracer import isbox
 
 from . import numpy_wrapper as anp
 from .numpy_vjps import match_complex
@@ -194,8 +195,9 @@ def grad_eigh(ans, x, UPLO="L"):
 
         # Add eigenvector part only if non-zero backward signal is present.
         # This can avoid NaN results for degenerate cases if the function depends
-        # on the eigenvalues only.
-        if anp.any(vg):
+        # on the eigenvalues only.  A traced cotangent is kept whatever its value:
+        # the derivative of this VJP with respect to it does not vanish at zero.
+        if isbox(vg) or anp.any(vg):
             off_diag = anp.ones((N, N)) - anp.eye(N)
             F = off_diag / (T(w_repeated) - w_repeated + anp.eye(N))
             vjp_temp += _dot(_dot(vc, F * _dot(T(v), vg)), T(v))
